@@ -41,10 +41,31 @@ func (chanendScn) Generate(g *simrt.Rng, tier string) any {
 		// the ending side leaves early: the other side is still streaming
 		if !c.OpenClose && g.Bool(0.7) {
 			c.Victim = true
+			c.CancelSend = g.Bool(0.5)
 			if c.enderIsClient() {
 				c.EndRecv = g.IntN(len(c.S2C)/2 + 1)
 			} else {
 				c.EndRecv = 1 + g.IntN((len(c.C2S)+1)/2)
+			}
+		}
+		// both sides end the channel on their own: their close frames cross
+		if !c.OpenClose && g.Bool(0.35) {
+			c.CancelSend = true
+			if c.enderIsClient() {
+				c.YEnd = 1 + simrt.Pick(g, EndServerClose, EndHandlerOK, EndHandlerErr, EndHandlerPanic)
+				c.YEndRecv = 1 + g.IntN(len(c.C2S))
+			} else {
+				c.YEnd = 1 + simrt.Pick(g, EndClientClose, EndClientFree)
+				c.YEndRecv = g.IntN(len(c.S2C) + 1)
+			}
+			// often at the same point of the conversation, so that the two closes are in flight together
+			if g.Bool(0.5) {
+				c.EndRecv, c.YEndRecv = min(c.EndRecv, 1), min(c.YEndRecv, 1)
+				if !c.enderIsClient() {
+					c.EndRecv = 1
+				} else {
+					c.YEndRecv = 1
+				}
 			}
 		}
 		p.Channels = append(p.Channels, c)
